@@ -65,6 +65,14 @@ def tasks(tier, seed):
                                     # the handlers installed as attributes after construction (app.on_open = f) instead of constructor arguments
                                     ts.append({"kind": "seq", "seq": list(seq), "term": term, "disp": disp, "onrec": onrec, "interval": interval, "ping": ping,
                                                "assign_after": True, "bound": 0, "name": "%s|%s/%s/rec=%s/i=%d/handlers-assigned-later" % (",".join(seq), term, disp, onrec, interval)})
+    # the server's close frame with every status it may carry (1000-1003, 1007-1014, 3000-4999), bare and with a reason: no further attempt
+    for code in (1001, 1002, 1003, 1007, 1008, 1009, 1010, 1011, 1012, 1013, 1014, 3000, 3999, 4000, 4999):
+        for reason in ("", ":restarting \u2713"):
+            for seq in ((), ("eof",)):
+                for disp in ("builtin", "external"):
+                    term = "server-close:%d%s" % (code, reason)
+                    ts.append({"kind": "seq", "seq": list(seq), "term": term, "disp": disp, "onrec": True, "interval": 1, "ping": False, "bound": 0,
+                               "name": "%s|%s/%s/rec=True/i=1/ping=False" % (",".join(seq) or "-", term, disp)})
     # close() from a second thread: at every scheduling point of the loop thread (preemption) and at every phase of the
     # reconnect cycle in virtual time (connection open, during the reconnect sleep, during a failing attempt, after re-establishment)
     for disp in ("builtin",):
@@ -168,6 +176,12 @@ def peer_factory(kind, idx, ping):
         return lambda: tnet.ServerPeer(script=[(1.0, "data", msg)], on_ping=None)
     if kind == "server-close":
         return lambda: tnet.ServerPeer(script=[(1.0, "data", msg), (2.0, "data", R.encode(R.CLOSE, b"\x03\xe8"))], on_ping=on_ping)
+    if kind.startswith("server-close:"):
+        # server-close:<code>[:<reason>] - every status a server may close with ends the run, whatever its meaning
+        parts = kind.split(":", 2)
+        code = int(parts[1])
+        body = bytes([code >> 8, code & 255]) + (parts[2].encode() if len(parts) > 2 else b"")
+        return lambda: tnet.ServerPeer(script=[(1.0, "data", msg), (2.0, "data", R.encode(R.CLOSE, body))], on_ping=on_ping)
     if kind == "server-close-nobody":
         # a close frame without status code (RFC 6455 5.5.1 allows an empty body): it ends the run like any other
         return lambda: tnet.ServerPeer(script=[(1.0, "data", msg), (2.0, "data", R.encode(R.CLOSE, b""))], on_ping=on_ping)
